@@ -25,6 +25,10 @@ func Run(r *ev.Run) {
 		"an observed callback never shares its request with a hand-out: with an empty job queue it rides in a GET_JOB request (PackageTransmitAll), while jobs are queued it is sent as a package that does not ask for jobs (PackageTransmitNow); draining the queue and its 'Send Task to Agent' console line belong to the hand-out step",
 		"outbound-dial probe: only the synchronous dial of the reverse-port-forward path (PortFwdOpen) is observable deterministically; the socks path dials from the operator side and is not driven",
 	)
+	if os.Getenv("VERIF_RACE_PASS") != "" {
+		runFree(r)
+		return
+	}
 	// quick: one search per shard, bounded depth.  thorough: the same model run to its
 	// fixpoint (the state space under these caps is finite), then a larger model
 	// (more simultaneously outstanding tasks) to a bounded depth.
